@@ -23,6 +23,7 @@ type nrmItem struct {
 	Up   bool    `json:"up"`
 	Unit bool    `json:"unit"`
 	Kd   int     `json:"kd"`
+	Ku   int     `json:"ku"` // gb: number of super-diagonals (kd = number of sub-diagonals)
 	R    int     `json:"r"`
 	C    int     `json:"c"`
 	E0   imat    `json:"E0"`
@@ -53,6 +54,10 @@ func nrmFamily(c *inst, raw json.RawMessage, full bool, sum *core.Summary) {
 			ldv = []int{it.Kd + 1, it.Kd + 3}
 		case "gt", "st":
 			ldv = []int{1}
+		case "tb":
+			ldv = []int{it.Kd + 1, it.Kd + 3}
+		case "gb":
+			ldv = []int{it.Kd + it.Ku + 1, it.Kd + it.Ku + 3}
 		}
 		for _, up := range uplos {
 			ul := blas.Lower
@@ -91,11 +96,42 @@ func nrmFamily(c *inst, raw json.RawMessage, full bool, sum *core.Summary) {
 									}
 								}
 							}
-						case "sb":
+						case "hs":
+							a = build(src, 1, r, cc, ld, 1)
+							for i := 0; i < r; i++ {
+								for j := 0; j < cc; j++ {
+									a[i*ld+j] = sc(src[i][j])
+									if j < i-1 {
+										a[i*ld+j] = triNaN // below the subdiagonal: not referenced
+									}
+								}
+							}
+						case "gb":
+							// row-major band storage: A[i][j] at ab[i*ld + kl + j - i]
+							nr := mini(r, cc+it.Kd)
+							a = make([]float64, nr*ld+1)
+							for i := range a {
+								a[i] = triNaN
+							}
+							a[len(a)-1] = tailNaN
+							for i := 0; i < nr; i++ {
+								for j := maxi(0, i-it.Kd); j <= mini(cc-1, i+it.Ku); j++ {
+									a[i*ld+it.Kd+j-i] = sc(src[i][j])
+								}
+							}
+							if r == 0 || cc == 0 {
+								a = []float64{tailNaN}
+							}
+						case "sb", "tb":
 							a = packBand(src, r, it.Kd, ld, up, false)
 							for i := range a {
 								if !math.IsNaN(a[i]) {
 									a[i] = math.Ldexp(a[i], e)
+								}
+							}
+							if it.Kind == "tb" && it.Unit {
+								for i := 0; i < r; i++ {
+									a[bandIndex(up, it.Kd, ld, i, i)] = triNaN // unit diagonal: not referenced
 								}
 							}
 						case "gt", "st":
@@ -112,7 +148,8 @@ func nrmFamily(c *inst, raw json.RawMessage, full bool, sum *core.Summary) {
 						work := newWork(maxi(r, cc) + 1)
 						w := work[:maxi(r, cc)]
 						routines := map[string][]string{"ge": {"Dlange", "lapack64.Lange"}, "sy": {"Dlansy", "lapack64.Lansy"},
-							"tr": {"Dlantr", "lapack64.Lantr"}, "sb": {"Dlansb", "lapack64.Lansb"}, "gt": {"Dlangt", "lapack64.Langt"}, "st": {"Dlanst"}}[it.Kind]
+							"tr": {"Dlantr", "lapack64.Lantr"}, "sb": {"Dlansb", "lapack64.Lansb"}, "gt": {"Dlangt", "lapack64.Langt"}, "st": {"Dlanst"},
+							"hs": {"Dlanhs"}, "gb": {"Dlangb", "lapack64.Langb"}, "tb": {"Dlantb", "lapack64.Lantb"}}[it.Kind]
 						for _, routine := range routines {
 							if routine == "lapack64.Lantr" && r != cc {
 								continue // the wrapper takes a square blas64.Triangular
@@ -146,6 +183,16 @@ func nrmFamily(c *inst, raw json.RawMessage, full bool, sum *core.Summary) {
 									got = lapack64.Langt(norm, lapack64.Tridiagonal{N: r, DL: d1, D: d2, DU: d3})
 								case "Dlanst":
 									got = impl.Dlanst(norm, r, d2, d1)
+								case "Dlanhs":
+									got = impl.Dlanhs(norm, r, a, ld, w)
+								case "Dlangb":
+									got = impl.Dlangb(norm, r, cc, it.Kd, it.Ku, a[:len(a)-1], ld)
+								case "lapack64.Langb":
+									got = lapack64.Langb(norm, blas64.Band{Rows: r, Cols: cc, KL: it.Kd, KU: it.Ku, Stride: ld, Data: a[:len(a)-1]})
+								case "Dlantb":
+									got = impl.Dlantb(norm, ul, dg, r, it.Kd, a, ld, w)
+								case "lapack64.Lantb":
+									got = lapack64.Lantb(norm, blas64.TriangularBand{N: r, K: it.Kd, Stride: ld, Data: a, Uplo: ul, Diag: dg}, w)
 								}
 							})
 							sum.Cases++
